@@ -57,6 +57,7 @@ def run(ctx):
             ctx.guard("C01", "thresholds", lambda: engine.step_thresholds(ctx, prog))
             ctx.guard("C01", "piece", lambda: piece.piece_effects(ctx, prog))
         ctx.guard("C01", "const values", lambda: data.const_census(ctx, prog, data.CONST_SCOPES["C01"], floor=1))
+        ctx.guard("C01", "panic conditions", lambda: beliefs.live_census(ctx, prog, beliefs.SCOPES["C01"][0]))
         ctx.guard("C01", "overflow-borders", lambda: gen.overflow_borders(ctx, prog))
         ctx.guard("C01", "summaries", lambda: summary.check(ctx, prog, 'internals::generate::(hashes::|BlockHashContext|Generator::(new|guessed_preferred_max_input_size_at)$)', floor=2))
         ctx.guard("C01", "path summaries", lambda: summary.check_paths(ctx, prog, 'internals::generate::(hashes::|BlockHashContext|Generator::(new|guessed_preferred_max_input_size_at)$)', floor=0))
